@@ -85,6 +85,9 @@ INVISIBLE_EDITS = [
     lambda r, h: h.replace('<p', '<!ELEMENT %s><p' % r.choice(htmlgen.WORDS), 1),
     lambda r, h: h.replace('<p', '<![CDATA[%s]]><p' % r.choice(htmlgen.WORDS), 1),
     lambda r, h: h.replace('<p', '</ %s><p' % r.choice(htmlgen.WORDS), 1),
+    # comments directly next to one another, and a comment directly followed by an element that starts with one
+    lambda r, h: h.replace('<p', '<!--a %s--><!--b %s--><!--c--><p' % (r.choice(htmlgen.WORDS), r.choice(htmlgen.WORDS)), 1),
+    lambda r, h: h.replace('<p', '<!--a--><div><!--b %s--></div><p' % r.choice(htmlgen.WORDS), 1) if '<li' not in h.split('<p')[0][-40:] else h,
     # text that looks like a charset declaration, inside content that is not displayed (a title, a script, a style): the text of the
     # page is given as str, nothing in it may be re-read as a declaration of another encoding
     lambda r, h: '<title>How to use &lt;meta charset="%s"&gt;</title>' % r.choice(['koi8-r', 'shift_jis', 'iso-8859-7']) + h if '<title>' not in h else
